@@ -17,7 +17,7 @@ pub struct C02Case {
 }
 
 fn safety(sim: &Sim, info: &StepInfo) -> Result<(), Fail> {
-    panic_or_err(info, "C02", false)?;
+    panic_or_err(sim, info, "C02", false)?;
     for n in &info.notes {
         ensure!(
             !matches!(n, N::MemberDown(_) | N::Idle | N::Defunct | N::Rejoin(_)),
@@ -175,6 +175,8 @@ impl Part for DiscoveryPart {
     }
     fn strategy(&self, tier: Tier) -> BoxedStrategy<C02Case> {
         let mut p = ClusterProfile::default();
+        // a fault-free run raises no suspicion at all, so members may sit at the very top of the range
+        p.inc_cap = u16::MAX;
         p.n = (2, tier.pick(12, 24));
         p.max_tx = (1, 10);
         p.join_formation = 1;
@@ -208,6 +210,7 @@ impl Part for LongRunPart {
     }
     fn strategy(&self, _tier: Tier) -> BoxedStrategy<C02Case> {
         let mut p = ClusterProfile::default();
+        p.inc_cap = u16::MAX;
         p.n = (2, 4);
         p.max_tx = (1, 10);
         p.join_formation = 1;
@@ -240,6 +243,7 @@ impl Part for TinyPart {
     }
     fn strategy(&self, tier: Tier) -> BoxedStrategy<C02Case> {
         let mut p = ClusterProfile::default();
+        p.inc_cap = u16::MAX;
         p.n = (2, tier.pick(10, 16));
         p.max_tx = (1, 10);
         p.join_formation = 1;
@@ -272,7 +276,7 @@ pub fn run(ctx: &Ctx, report: &mut Report) -> EvidenceMeta {
     ctx.run_part(&LongRunPart, report);
     EvidenceMeta {
         level: "exploration",
-        rule: "deterministic discrete-event simulation of whole clusters, every input generated by proptest: n in 2..=12 (24 thorough), join instants, seed member of each joiner (any earlier member), per-message latency uniform in [1us, L] with L < probe_rtt/4, every instance's RNG seed, fan-out 1..3, max_transmissions 1..10, periodic gossip / announce on or off, probe_rtt/probe_period 0.2..0.8, packet size from 'feeds the whole cluster' to 1400 (part 2: from 'every header just fits' upward, safety clause only; part 3: clusters of 2..4 observed for 600 probe periods, safety clause only, so that wrapping counters are crossed), fixed- and variable-length identities; timers fire exactly on time, ties in Timer's documented order. Oracle at every event: no call returns an error, no MemberDown/Idle/Defunct/Rejoin, no record other than Alive in the acting node's iter_membership_state(); at T_last_join + (6n+20) probe periods every instance lists exactly every other identity as Alive. Non-convergence with periodic announce off, all backlogs drained, nothing in flight and symmetric knowledge is the listed known finding C02:discovery-stall; any other non-convergence is a violation. Non-trivial: n >= 3, a joiner used a non-first seed and every member completed probe rounds; distinct = (n, config class, join graph, message kinds, codec)."
+        rule: "deterministic discrete-event simulation of whole clusters, every input generated by proptest: n in 2..=12 (24 thorough), join instants, seed member of each joiner (any earlier member), per-message latency uniform in [1us, L] with L < probe_rtt/4, every instance's RNG seed, own starting incarnations 0..Incarnation::MAX (reached through refuted suspicions before the run), fan-out 1..3, max_transmissions 1..10, periodic gossip / announce on or off, probe_rtt/probe_period 0.2..0.8, packet size from 'feeds the whole cluster' to 1400 (part 2: from 'every header just fits' upward, safety clause only; part 3: clusters of 2..4 observed for 600 probe periods, safety clause only, so that wrapping counters are crossed), fixed- and variable-length identities; timers fire exactly on time, ties in Timer's documented order. Oracle at every event: no call returns an error, no MemberDown/Idle/Defunct/Rejoin, no record other than Alive in the acting node's iter_membership_state(); at T_last_join + (6n+20) probe periods every instance lists exactly every other identity as Alive. Non-convergence with periodic announce off, all backlogs drained, nothing in flight and symmetric knowledge is the listed known finding C02:discovery-stall; any other non-convergence is a violation. Non-trivial: n >= 3, a joiner used a non-first seed and every member completed probe rounds; distinct = (n, config class, join graph, message kinds, codec)."
             .into(),
         assumptions: vec![
             "transport delivers every datagram within probe_rtt/4, timers fire exactly on time (the statement's premises)".into(),
